@@ -132,6 +132,21 @@ def main():
         for b in rr["result"]["bad"]:
             ck.violation("exchange-acceptance", b, key={"site": "chain_swap_acceptance"})
 
+    # ---- (c1) chain_swap_step: acceptance boundary, with the chain's own prior (inbreeding) and temperatures --------
+    xt = []
+    for i, (F, ti, tj) in enumerate([(0.0, 1.0, 0.5), (0.3, 1.0, 0.1), (0.5, 0.6, 0.01), (0.15, 1.0, 0.9)]):
+        for c in ("MC_3_2_23", "MC_2_3_223") if quick else ("MC_3_2_23", "MC_2_3_223", "MC_4_2_22", "MC_3_3_222"):
+            P, A = GRID[c]
+            xt.append({"op": "exchange_step", "A": A, "P": P, "states": [{"g": s["g"]} for s in states.get(c, [])], "seed": ck.seed + i, "F": F, "ti": ti, "tj": tj})
+    res = pool.map_tasks("impl.c01", xt, mode="py")
+    for t, rr in zip(xt, res):
+        if not rr["ok"]:
+            ck.violation("exchange-step-error", {"error": rr["error"], "tb": rr.get("tb", "")[-500:]}, key={"site": "chain_swap_step"})
+            continue
+        ck.evaluations += rr["result"]["n"]
+        for b in rr["result"]["bad"]:
+            ck.violation("exchange-step", b, key={"site": "chain_swap_step"})
+
     # ---- (c2) random_choice realises the probability vectors (inverse CDF against the same uniform draw) ----
     for mode in ("py", "jit"):
         rr = pool.map_tasks("impl.c01", [{"op": "choice", "seed": ck.seed + 3, "n": 300 if quick else 3000}], mode=mode)[0]
